@@ -8,7 +8,8 @@ import PilotaModel.Idl.UnicodeTable
 
   The budget `d` is the number of nested *recursive* frames still allowed:
   `Ty::parse` (through list / set / map), `ConstValue::parse` (through list / map literals) and
-  `IntConstant::parse` (through each leading `-`) take one unit per frame.  `File.parse` starts
+  `IntConstant::parse` (through each leading `-`) take one unit per frame (a `ConstValue` frame
+  hands its own budget to the number parsers it calls).  `File.parse` starts
   with `input.length + 2`, which `Lemmas/IdlTotal.lean` shows is never exhausted.
 -/
 namespace Pilota.Idl
@@ -218,8 +219,8 @@ def ConstValue.parse : Nat → P ConstValue
       keyword cs!"true" (ConstValue.bool true),
       keyword cs!"false" (ConstValue.bool false),
       pmap ConstValue.path Path.parse,
-      pmap ConstValue.double (DoubleConstant.parse d),
-      pmap ConstValue.int (IntConstant.parse d),
+      pmap ConstValue.double (DoubleConstant.parse (d + 1)),
+      pmap ConstValue.int (IntConstant.parse (d + 1)),
       (andThen (tag ['[']) fun _ =>
        andThen (many0 (
          andThen (opt blank) fun _ =>
